@@ -811,7 +811,8 @@ impl AwsClientBuilder {
     }
 
     fn build_final_connect_options(&self, connect_options: ConnectOptions) -> ConnectOptions {
-        let is_auto_assigned_client_id = connect_options.client_id().is_none();
+        // an explicitly empty client id asks the broker to auto-assign one just like a missing one does
+        let is_auto_assigned_client_id = connect_options.client_id().as_ref().map_or(true, |id| id.is_empty());
         let mut final_connect_options_builder = ConnectOptions::builder_from_existing(connect_options);
 
         if let Some(options) = &self.custom_auth_options {
